@@ -609,6 +609,12 @@ def rule12_shared(ctx, fl):
                                                   'myth_tls_tree_destroy', 'myth_tls_key_allocator_alloc'],
                        stops=('myth_tls_tree_node_free', 'myth_free') + lib.SPIN_STOPS, flavour=fl)
         ctx.attempt(c11.rule123_walk, ctx, v11)
+    with ctx.shared({'C11.4': 'C16.19'}, keep=lambda k: k in ('slot cleared before the call', 'value passed is the slot content',
+                                                             'destructor null-tested', 'one destructor call site'), floor=4,
+                    doc='what a key destructor sees (shared with C11.4): as with the system library, the slot of the key is already NULL '
+                        'when its destructor runs and the destructor receives the value it held - a destructor (or a helper it calls) '
+                        'that reads its own key with pthread_getspecific otherwise gets the dying value back'):
+        ctx.attempt(c11.rule4_leaf, ctx, v11)
     from . import c10
     with ctx.shared({'C10.2': 'C16.18'}, floor=4,
                     doc='pthread_getspecific on a key the thread never set returns NULL (shared with C10.2): a fresh leaf of the per-thread '
@@ -740,6 +746,8 @@ OPTS = 'src/myth-ld.opts'
 C16M1_OLD = "  long ns = a->tv_nsec + b->tv_nsec;\n  c->tv_nsec = ns % 1000000000;"
 C16M1_NEW = "  long ns = (a->tv_nsec + b->tv_nsec) % 1000000000;\n  c->tv_nsec = ns;"
 MUTANTS = [
+    {'name': 'key destructor runs while its key still holds the dying value (seed6 C16/m1)', 'expect': 'C16.19',
+     'edits': [('src/myth_tls_func.h', "\tn->entries[i].value = 0;\n\tdestructor(val);", "\tdestructor(val);\n\tn->entries[i].value = 0;")]},
     {'name': 'pthread_once wrapper answers by itself when the control is not in its initial state (seed4 C14/m3)', 'expect': 'C16.1',
      'edits': [(WRAP, "    ret = myth_once_body((myth_once_t *)once_control, init_routine);", "    if (*once_control != PTHREAD_ONCE_INIT) ret = 0;\n    else ret = myth_once_body((myth_once_t *)once_control, init_routine);")]},
     {'name': 'pthread_equal body compares the first argument with itself', 'expect': 'C16.15',
